@@ -845,6 +845,10 @@ func runC14(r *core.Run) {
 			bd = bound - 1
 			r.Note(fmt.Sprintf("preemption bound %d for the 3-thread scenario (cost)", bd))
 		}
+		if strings.HasPrefix(sc.name, "sweep(") {
+			bd = bound - 1
+			r.Note(fmt.Sprintf("preemption bound %d for the error-path sweep scenario (about 200 scheduling points in one thread)", bd))
+		}
 		p := C14Case{Scenario: sc.name, Bound: bd}
 		e := &core.Explorer{Ctx: r, Name: "C14 " + sc.name, Bound: bd, Workers: 1, Body: func(x *core.X) { c14Exec(r, sc, solo, p, x) },
 			Stop: func() bool { return r.Expired("schedule exploration") }}
